@@ -36,22 +36,27 @@ Val(i) == IF nodes[i].ins = <<>> THEN <<nodes[i].key, <<i>>>>
           ELSE <<nodes[i].key, [h \in 1..Len(nodes[i].ins) |-> Val(nodes[i].ins[h])]>>
 
 (* ---------- layer-wise topological ordering ---------- *)
-RECURSIVE Level(_)
-Level(i) == IF nodes[i].ins = <<>> THEN 1
-            ELSE 1 + (CHOOSE m \in {Level(nodes[i].ins[h]) : h \in 1..Len(nodes[i].ins)} :
-                        \A y \in {Level(nodes[i].ins[h]) : h \in 1..Len(nodes[i].ins)} : y <= m)
-MaxLevel == IF NN = 0 THEN 0 ELSE CHOOSE m \in {Level(i) : i \in 1..NN} : \A i \in 1..NN : Level(i) <= m
+(* level of every node, bottom-up (node ids are a topological order): 1 for input modules, *)
+(* else 1 + the largest level of an input = the frontier in which the node becomes ready   *)
+MaxOf(S) == CHOOSE m \in S : \A y \in S : y <= m
+LevelSeq ==
+  LET RECURSIVE LS(_)
+      LS(n) == IF n = 0 THEN <<>>
+               ELSE LET p == LS(n - 1) IN
+                    Append(p, IF nodes[n].ins = <<>> THEN 1
+                              ELSE 1 + MaxOf({p[nodes[n].ins[h]] : h \in 1..Len(nodes[n].ins)}))
+  IN LS(NN)
+MaxLevelOf(lv) == IF NN = 0 THEN 0 ELSE MaxOf({lv[i] : i \in 1..NN})
 
-(* ---------- folding: groups of one frontier by (key, arity), in order of first appearance ---------- *)
+(* ---------- folding: groups of one frontier by key, in order of first appearance ---------- *)
 GroupKey(i) == <<nodes[i].key, Len(nodes[i].ins)>>
-Frontier(l) == {i \in 1..NN : Level(i) = l}
 SetToSeqInc(S) == LET RECURSIVE F(_)
                       F(T) == IF T = {} THEN <<>>
                               ELSE LET m == CHOOSE y \in T : \A z \in T : y <= z IN <<m>> \o F(T \ {m})
                   IN F(S)
 (* the groups of frontier l, each a sequence of node ids in frontier order *)
-GroupsOf(l) ==
-  LET fr == SetToSeqInc(Frontier(l))
+GroupsOf(lv, l) ==
+  LET fr == SetToSeqInc({i \in 1..NN : lv[i] = l})
       RECURSIVE G(_, _)
       G(k, acc) ==   \* acc: sequence of groups
         IF k > Len(fr) THEN acc
@@ -60,9 +65,9 @@ GroupsOf(l) ==
              IF pos = {} THEN G(k + 1, Append(acc, <<i>>))
              ELSE LET g == CHOOSE g \in pos : TRUE IN G(k + 1, [acc EXCEPT ![g] = Append(acc[g], i)])
   IN G(1, <<>>)
-RECURSIVE ModulesUpTo(_)
-ModulesUpTo(l) == IF l = 0 THEN <<>> ELSE ModulesUpTo(l - 1) \o GroupsOf(l)
-Modules == ModulesUpTo(MaxLevel)            \* sequence of groups = folded modules
+RECURSIVE ModulesUpTo(_, _)
+ModulesUpTo(lv, l) == IF l = 0 THEN <<>> ELSE ModulesUpTo(lv, l - 1) \o GroupsOf(lv, l)
+Modules == LET lv == LevelSeq IN ModulesUpTo(lv, MaxLevelOf(lv))   \* sequence of groups = folded modules
 (* M is the sequence of folded modules (Modules), computed once per state *)
 ModOf(M, i) == CHOOSE m \in 1..Len(M) : \E s \in 1..Len(M[m]) : M[m][s] = i
 SliceOf(M, i) == CHOOSE s \in 1..Len(M[ModOf(M, i)]) : M[ModOf(M, i)][s] = i
